@@ -17,7 +17,7 @@ from vp import gen, lib, scen
 ID = "C04"
 LEVEL = "exploration"
 BATCH = 4
-CASE_TIMEOUT = 400
+CASE_TIMEOUT = 3200
 RULE = ("seeded stress workloads per entry point x {full memory, cut-off} x "
         "{T=0, T>0}; the contract evaluates every returned state; bound "
         "100*epsrel*(1+spread^2 sum|eta|) (x (n_steps/5)^2 for Gibbs, x sites for chains); positivity "
@@ -51,11 +51,19 @@ def required_cells(tier):
 
 def cases(tier, seed):
     n = 96 if tier == "quick" else 900
-    return [{"kind": "phys", "seed": seed, "idx": i, "tier": tier}
-            for i in range(n)]
+    out = [{"kind": "phys", "seed": seed, "idx": i, "tier": tier}
+           for i in range(n)]
+    if tier == "thorough":
+        # the repository's own tests under the physicality postconditions
+        out.append({"kind": "repotests", "seed": seed, "tier": tier})
+    return out
 
 
 def run_case(case):
+    if case["kind"] == "repotests":
+        from vp import repotests
+        return repotests.run(lambda m: m in ("trace", "hermiticity",
+                                             "positivity", "norm"))
     import oqupy
     from vp.mon import contracts
     contracts.install_physicality_contracts()
